@@ -96,6 +96,13 @@ CHECKS = {
                      "keys and ill-typed / out-of-range / unknown values at connection, auth and protect-entry level: "
                      "Configuration() either raises ConfigurationError or loads; well-typed loads are compared field by "
                      "field with an independent reading (ref/confread.py)."),
+    'C06': dict(level='exploration', technique=EX + "; termination decided by an exact executed-event budget (sys.monitoring), not a timeout",
+                text="Complete enumeration of: every truncation and 5 mutations per octet of 31 authentic messages of all "
+                     "exchange kinds (on the wire and on the plaintext, re-encrypted and re-MACed), every length / count "
+                     "field at every nesting level x boundary values x next-payload octets, all small datagrams over an "
+                     "octet alphabet, SK bodies of every length with a valid ICV, large repetitive datagrams; each under "
+                     "header_only on/off and no / right / wrong keys. Outcome must be a Message or a protocol error; "
+                     "executed events must stay under A + B*len + C*declared SPIs; a cap far above aborts a loop."),
 }
 
 # filled in as checks are built; anything in ALL but not in CHECKS is listed under not_applicable
